@@ -20,11 +20,13 @@ sed "s#=> /repo#=> $S/repo#" go.mod > $S/go.mod; cp go.sum $S/go.sum
 ( cd $S/repo && go build ./... ) || { echo "MUTANT-DOES-NOT-COMPILE $ID $NAME"; rm -rf $S; exit 2; }
 lc=$(echo $ID | tr A-Z a-z)
 PKG=./cmd/vcheck; [ -d cmd/dev-$lc ] && PKG=./cmd/dev-$lc
-RACE=""; grep -q 'Race: *true' internal/$lc/*.go 2>/dev/null && RACE="-race"
-go build $RACE -modfile=$S/go.mod -tags verif -o $S/root/bin/vcheck$( [ -n "$RACE" ] && echo -race ) $PKG || { echo "BUILD-FAILED"; rm -rf $S; exit 2; }
+mkdir -p $S/root/bin
+go build -modfile=$S/go.mod -tags verif -o $S/root/bin/vcheck $PKG || { echo "BUILD-FAILED"; rm -rf $S; exit 2; }
+if $S/root/bin/vcheck needs-race $ID >/dev/null 2>&1; then
+  go build -race -modfile=$S/go.mod -tags verif -o $S/root/bin/vcheck-race $PKG || { echo "BUILD-FAILED"; rm -rf $S; exit 2; }
+fi
 cp properties.jsonl known_findings.txt $S/root/ 2>/dev/null
-EXE=$S/root/bin/vcheck$( [ -n "$RACE" ] && echo -race )
-VERIF_ROOT=$S/root timeout 3000 $EXE run $ID $TIER > $S/out.txt 2>&1; rc=$?
+VERIF_ROOT=$S/root timeout 3000 $S/root/bin/vcheck run $ID $TIER > $S/out.txt 2>&1; rc=$?
 if [ $rc -eq 1 ]; then echo "CAUGHT $ID $NAME: $(grep -c '^VIOLATION' $S/out.txt) keys; first: $(grep -A1 '^VIOLATION' $S/out.txt | sed -n 2p | cut -c1-150)";
 elif [ $rc -eq 0 ]; then echo "MISSED $ID $NAME ($(tail -1 $S/out.txt))";
 else echo "RC=$rc $ID $NAME: $(tail -3 $S/out.txt | tr '\n' ' ' | cut -c1-300)"; fi
